@@ -876,6 +876,33 @@ def check_c19(tier):
                 recs.append(X)
                 meta[rid] = (blt, opts, lp, k)
                 per_rule[rule] += 1
+    # the same through the command-line driver Droop.main (report + dump + json in one call, its own try/except)
+    import tempfile
+    nmain = 0
+    fd, pth = tempfile.mkstemp(prefix='vintr-', suffix='.blt')
+    try:
+        blt0 = drive.mkblt(**profiles[-1])
+        with os.fdopen(fd, 'w') as fh:
+            fh.write(blt0)
+        for rule in drive.RULES:
+            opts = dict(rule=rule)
+            if rule in ('wigm', 'meek', 'warren'):
+                opts.update(arithmetic='fixed', precision=3)
+            K, full, fulljson = interrupt.full_run(blt0, opts, None)
+            ks = sorted(set(range(1, 60, 4)) | set(rng.sample(range(1, K + 1), min(K, 12 if tier == 'quick' else 150))))
+            for k in ks:
+                X = interrupt.main_record(pth, blt0, opts, k, full, fulljson, with_report=(k % 2 == 0))
+                R.cov['evaluations'] += 1
+                if X is None:
+                    continue
+                rid += 1
+                X['id'] = rid
+                recs.append(X)
+                meta[rid] = (blt0, dict(opts, via='Droop.main', report=(k % 2 == 0)), None, k)
+                nmain += 1
+    finally:
+        os.unlink(pth)
+    R.cov['crash_points_through_Droop_main'] = nmain
     out, res2 = vlib.judge_intr(recs, workers=16)
     R.add_tlc(res2)
     R.cov['traces_validated_against_impl'] += len(recs)
